@@ -30,6 +30,7 @@ run(scen.gen_registry_scenario, scen.check_registry_scenario, label='registry')
 run(scen.gen_auth_scenario, scen.check_auth_scenario, label='auth')
 run(scen.gen_route_scenario, scen.check_route_scenario, True, label='route')
 run(scen.gen_pages_scenario, scen.check_pages_scenario, label='pages')
+run(scen.gen_pages_scenario, scen.check_registry_scenario, label='pages-registry')
 for pid in ('C01', 'C06', 'C08', 'C10', 'C12', 'C13', 'C15', 'C18'):
     cs = refute.GENS[pid](rng, 20000)
     outs = refute.run_cases(cs)
